@@ -87,8 +87,33 @@ def fl(x):
     return x[0] / x[1]
 
 
+def pederr_walks(task):
+    """PEDERR of a trace in which the PARENTS change from step to step (often only in their last alleles) while the
+    progeny stays: the statistic must be recomputed for every step"""
+    from mchap.pedigree.classes import PedigreeAllelesMultiTrace
+    out = []
+    for w in task["walks"]:
+        K, tp, tq, lp, lq = w["K"], w["tp"], w["tq"], fl(w["lp"]), fl(w["lq"])
+        steps, child = w["steps"], w["child"]
+        np_, nq = len(steps[0][0]), len(steps[0][1])
+        mp = max(np_, nq, tp + tq)
+        tr = np.full((1, len(steps), 3, mp), -2, dtype=np.int16)
+        for t, (Gp, Gq) in enumerate(steps):
+            tr[0, t, 0, :np_] = Gp
+            tr[0, t, 1, :nq] = Gq
+            tr[0, t, 2, : tp + tq] = child
+        pl = np.array([np_, nq, tp + tq])
+        tau = np.array([[1, 1], [1, 1], [tp, tq]])
+        lam = np.array([[0.0, 0.0], [0.0, 0.0], [lp, lq]])
+        mt = PedigreeAllelesMultiTrace(tr, n_allele=K)
+        out.append(float(mt.incongruence(pl, np.array([[-1, -1], [-1, -1], [0, 1]]), tau, lam)[2]))
+    return out
+
+
 def run(task):
     op = task["op"]
+    if op == "pederr_walks":
+        return pederr_walks(task)
     if op == "trio_rows":
         out = []
         for s in task["insts"]:
